@@ -2,6 +2,7 @@ package main
 
 import (
 	"bufio"
+	"context"
 	"encoding/json"
 	"fmt"
 	"io"
@@ -56,3 +57,5 @@ func writeJSONFile(path string, v any) error {
 	}
 	return os.WriteFile(path, b, 0o644)
 }
+
+var bgCtx = context.Background()
